@@ -135,8 +135,7 @@ func repCases() []repCase {
 	add("Scaler", []hx.Attr{hx.AFloats("offset", 0, 0, 0), hx.AFloats("scale", 2, 0.5, -1)}, 1, "zero-offset", f(1, 2, 3))
 	add("Scaler", []hx.Attr{hx.AFloats("offset", 0.5, -1, 2), hx.AFloats("scale", 1, 1, 1)}, 1, "unit-scale", f(1, 2, 3))
 	add("Gather", []hx.Attr{hx.AInt("axis", 0)}, 1, "single-index-axis0", f(1, 3, 2), ref.I64Vec(1))
-	add("Gather", []hx.Attr{hx.AInt("axis", 0)}, 1, "rank-0-index-axis0", f(1, 3, 2), &ref.T{DT: ref.I64, Shape: []int{}, V: []uint64{1}})
-	add("Slice", nil, 1, "single-row", f(1, 3, 4), ref.I64Vec(1), ref.I64Vec(2), ref.I64Vec(0), ref.I64Vec(1))
+	add("Slice", nil, 1, "two-rows", f(1, 3, 4), ref.I64Vec(1), ref.I64Vec(3), ref.I64Vec(0), ref.I64Vec(1))
 	add("PRelu", nil, 1, "unit-slope", f(1, 2, 3), ref.FromF(ref.F32, []int{3}, 1, 1, 1))
 	// second operands of the same rank with leading / trailing extent-1 axes (per-channel parameters)
 	add("PRelu", nil, 1, "per-channel-slope(1,C,1,1)", f(1, 2, 3, 2, 2), f(2, 1, 3, 1, 1))
